@@ -214,8 +214,48 @@ def find_witness(ctx, fn, a, b, lo, hi, extra=None):
 
 # ----------------------------------------------------------------------------------------- generators
 
+_HARD_CTX = []
+
+
+def hard_point(rng, fn, prec):
+    """a point x (dyadic, prec+26 bits) where f(x) lies within about 2^-(prec+24) (relative) of a number representable with
+    prec bits, on a random side of it, for both signs of f: the directed roundings of the end points have no slack here.
+    Generator side only (untrusted numerics choose x); the verdict is the Interval certificate for the resulting call."""
+    if not _HARD_CTX: _HARD_CTX.append(hint_ctx())
+    c = _HARD_CTX[0]
+    sgn = rng.choice([1, -1])
+    ybits = rng.choice([1, 2, 3, 8, prec])
+    for _ in range(20):
+        if fn in ("sin", "cos"):
+            y = sgn * rdy(rng, rng.randint(-6, 0), ybits)
+            if abs(y) >= 1: continue
+            x0 = (c.asin if fn == "sin" else c.acos)(c.mpf(y.numerator) / y.denominator) + rng.randint(-3, 3) * 2 * c.pi
+            if fn == "cos" and rng.random() < 0.5: x0 = -x0
+        elif fn == "tan":
+            y = sgn * rdy(rng, rng.randint(-5, 4), ybits)
+            x0 = c.atan(c.mpf(y.numerator) / y.denominator) + rng.randint(-3, 3) * c.pi
+        elif fn == "exp":
+            y = rdy(rng, rng.randint(-20, 20), ybits)
+            x0 = c.log(c.mpf(y.numerator) / y.denominator)
+        elif fn == "log":
+            y = sgn * rdy(rng, rng.randint(-6, 5), ybits)
+            x0 = c.exp(c.mpf(y.numerator) / y.denominator)
+        else:
+            return None
+        if x0 == 0: continue
+        t = x0._mpf_
+        xf = Fraction(t[1]) * TWO ** t[2] * (-1 if t[0] else 1)
+        x = round_to(xf, prec + 26, rng.choice([-1, 1]))
+        if x == 0: continue
+        return "hard_point", x, x
+    return None
+
+
 def gen_interval(rng, fn, prec):
     """-> (regime, a, b[, extra]) with exact dyadic end points"""
+    if fn in ("sin", "cos", "tan", "exp", "log") and rng.random() < 0.18:
+        hp = hard_point(rng, fn, prec)
+        if hp is not None: return hp
     long_ = rng.random() < 0.2
     pb = prec + rng.randint(1, 40) if long_ else prec
     def pt(e_lo, e_hi, signed=True, pos=False):
